@@ -172,11 +172,14 @@ static void upb_ensure(void)
     ABT_OK(up18_make_def(&def));
     ABT_OK(ABT_pool_create(def, ABT_POOL_CONFIG_NULL, &UPB.pool));
     ABT_OK(ABT_pool_user_def_free(&def));
+    ABT_OK(ABT_xstream_create_basic(ABT_SCHED_BASIC, 1, &UPB.pool, ABT_SCHED_CONFIG_NULL, &UPB.xs));
     UPB.inited = 1;
 }
 static void up18_teardown(void)
 {
     if (UPB.inited) {
+        ABT_OK(ABT_xstream_join(UPB.xs));
+        ABT_OK(ABT_xstream_free(&UPB.xs));
         ABT_OK(ABT_pool_free(&UPB.pool));
         SIM_CHECK(UPB.creates == UPB.frees, "upool:unit-leaked", "second user pool: %ld units created, %ld freed", UPB.creates, UPB.frees);
         UPB.inited = 0;
@@ -523,6 +526,70 @@ static void u_thread_revive_upool(void **h)
     ABT_OK(ABT_thread_revive(target_pool(), nop_fn, NULL, &revive_t));
     ABT_OK(ABT_thread_join(revive_t));
 }
+/* revive a terminated unit that is associated with one user-defined pool into another one */
+static volatile int revive2_runs;
+static void revive2_fn(void *arg)
+{
+    (void)arg;
+    revive2_runs++;
+}
+static void p_revive_up2up(void)
+{
+    upb_ensure();
+    ABT_OK(ABT_thread_revive(UP.pool, nop_fn, NULL, &revive_t));
+    ABT_OK(ABT_thread_join(revive_t));
+    revive2_runs = 0;
+}
+static int d_revive_up2up(void **h)
+{
+    int rc = ABT_thread_revive(UPB.pool, revive2_fn, NULL, &revive_t);
+    *h = rc == ABT_SUCCESS ? (void *)revive_t : POISON;
+    if (rc != ABT_SUCCESS)
+        SIM_CHECK(revive2_runs == 0, "fault:state-changed", "the function of a revive that failed ran %d times", revive2_runs);
+    return rc;
+}
+static void u_revive_up2up(void **h)
+{
+    (void)h;
+    ABT_OK(ABT_thread_join(revive_t));
+    SIM_CHECK(revive2_runs == 1, "lifecycle:not-exactly-once", "a unit revived into the second user-defined pool ran its new function %d times", revive2_runs);
+    ABT_OK(ABT_thread_revive(target_pool(), nop_fn, NULL, &revive_t));
+    ABT_OK(ABT_thread_join(revive_t));
+}
+/* the main scheduler of a joined stream is replaced by one over a user-defined pool (the
+ * scheduler's own ULT becomes a unit of that pool), and the stream is freed without being
+ * revived: the unit goes back to the pool */
+static ABT_xstream jfree_xs = ABT_XSTREAM_NULL;
+static void p_set_main_sched_then_free(void)
+{
+    if (jfree_xs == ABT_XSTREAM_NULL) {
+        ABT_OK(ABT_xstream_create(ABT_SCHED_NULL, &jfree_xs));
+        ABT_OK(ABT_xstream_join(jfree_xs));
+    }
+}
+static int d_set_main_sched_then_free(void **h)
+{
+    int rc = ABT_xstream_set_main_sched_basic(jfree_xs, ABT_SCHED_BASIC, 1, &UP.pool);
+    *h = rc == ABT_SUCCESS ? (void *)jfree_xs : POISON;
+    return rc;
+}
+static void u_set_main_sched_then_free(void **h)
+{
+    (void)h;
+    long live = UP.creates - UP.frees;
+    ABT_OK(ABT_xstream_free(&jfree_xs));
+    jfree_xs = ABT_XSTREAM_NULL;
+    SIM_CHECK(UP.creates - UP.frees == live - 1, "upool:unit-leaked",
+              "freeing a joined stream whose main scheduler's ULT is a unit of the user-defined pool left %ld live units there (%ld before the free): free_unit was not called for it",
+              UP.creates - UP.frees, live);
+}
+static void jfree_teardown(void)
+{
+    if (jfree_xs != ABT_XSTREAM_NULL) {
+        ABT_OK(ABT_xstream_free(&jfree_xs));
+        jfree_xs = ABT_XSTREAM_NULL;
+    }
+}
 static int d_set_assoc_upool(void **h)
 {
     int rc = ABT_thread_set_associated_pool(X.blocked, UP.pool);
@@ -819,6 +886,7 @@ static void push_teardown(void)
         ABT_OK(ABT_thread_free(&push_h[i]));
     ABT_OK(ABT_pool_free(&push_pool));
     push_inited = 0;
+    jfree_xs = ABT_XSTREAM_NULL;
 }
 /* printing routines that collect pools in a temporary set */
 static int d_info_print_all(void **h)
@@ -904,6 +972,8 @@ static const op18 OPS[] = {
     { "ABT_thread_migrate_to_pool", d_migrate_request, u_none, POISON, 2 },
     { "ABT_thread_migrate", d_thread_migrate, u_thread_migrate, POISON, 2 },
     { "ABT_thread_set_associated_pool(user_pool->user_pool2)", d_assoc_up2up, u_set_assoc_upool, POISON, 2, 2, 0, p_assoc_up2up },
+    { "ABT_thread_revive(user_pool->user_pool2)", d_revive_up2up, u_revive_up2up, POISON, 0, 2, 0, p_revive_up2up },
+    { "ABT_xstream_set_main_sched_basic(joined,user_pool)+free", d_set_main_sched_then_free, u_set_main_sched_then_free, POISON, 0, 2, 0, p_set_main_sched_then_free },
     { "ABT_pool_push_threads(x70)", d_push_many, u_push_many, POISON, 0, 0, 0, p_push_many },
     { "ABT_info_print_all_xstreams+thread_stacks_in_pool", d_info_print_all, u_none, POISON, 0 },
     { "ABT_mutex_create", d_mutex, u_mutex, ABT_MUTEX_NULL, 0 },
@@ -1126,6 +1196,7 @@ static void run_c18(void)
     follow_up("all");
     ABT_OK(ABT_thread_free(&revive_t));
     push_teardown();
+    jfree_teardown();
     if (X.populated) /* (a unit may still be associated with a user-defined pool) */
         ABT_OK(ABT_thread_set_associated_pool(X.blocked, X.pool));
     up18_teardown();
@@ -1161,6 +1232,15 @@ static void run_c14_faults(void)
     only_upool = 0;
 }
 SIM_WORKLOAD("C14", "failed-associations", run_c14_faults, 2)
+/* C12: a revive that fails (the unit cannot be associated with the target pool) leaves the unit
+ * terminated and revivable; the retried revive runs the new function exactly once */
+static void run_c12_faults(void)
+{
+    only_upool = 1;
+    run_c18();
+    only_upool = 0;
+}
+SIM_WORKLOAD("C12", "failed-revives", run_c12_faults, 1)
 
 /* ---- scenario "migration-handler": the allocation-class failure happens while a migration
  * request is being *served*, i.e. inside ABT_thread_yield() of the migrating unit (the target
